@@ -188,8 +188,11 @@ def main(tier_: str) -> int:
                 # what the manifest resolved
                 if proj['availabilityStartTime'] is not None:
                     man['start'] = canon(proj['availabilityStartTime'])
-                if proj['timeShiftBufferDepth'] is not None:
-                    man['depth'] = canon(proj['timeShiftBufferDepth'] // 10**6)
+                # the depth a manifest works with is the requested depth clamped to the age of the stream, and a media request clamps
+                # again when it is served: a media URL that carries the requested depth means the same window as one that carries
+                # the clamped depth
+                depth_requested = man.get('depth')
+                depth_resolved = canon(proj['timeShiftBufferDepth'] // 10**6) if proj['timeShiftBufferDepth'] is not None else depth_requested
                 # another client's manifest request, with other values for the same options, lands between this manifest and
                 # its media requests: what a media URL means must not depend on what the process served in between
                 other = {k: next((x for x in VALUES.get(k, []) if x != v), None) for k, v in vec.items()}
@@ -211,6 +214,7 @@ def main(tier_: str) -> int:
                         concrete = M.fill_template(t, rep['id'], rep['bandwidth'], number=5, time=0)
                         murl = f'/dash/{mode}/bbb/' + concrete
                         med = container_values(murl, mode)
+                        man['depth'] = depth_requested if med.get('depth') == depth_requested else depth_resolved
                         qs = urlsplit(murl).query
                         url_names = [p.split('=', 1)[0] for p in qs.split('&') if p]
                         # error injection positions are rewritten (times -> numbers): compared by C16
